@@ -1067,6 +1067,9 @@ class Executor(Exec):
             if name == "discard":
                 recv.member = z3.Store(recv.member, lift(args[0]), z3.BoolVal(False))
                 return None
+            if name == "clear":
+                recv.member = z3.K(recv.key_sort, z3.BoolVal(False))
+                return None
             if name == "copy":
                 return recv.copy()
         if isinstance(recv, str) and name == "join" and isinstance(args[0], (list, tuple)) and any(
